@@ -42,7 +42,7 @@ func srefSchemaJSON(allRoot bool) string {
  "RW":{"columns":{"w1":{"type":{"key":` + ref("N1", "weak") + `,"min":1,"max":"unlimited"}}}` + root + `},
  "N1":{"columns":{"name":{"type":"string"},"next":{"type":{"key":` + ref("N2", "strong") + `,"min":0,"max":1}}}},
  "N2":{"columns":{"name":{"type":"string"},"wp":{"type":{"key":` + ref("PR", "weak") + `,"min":0,"max":1}}},"indexes":[["name"]]},
- "PR":{"columns":{"name":{"type":"string"}}` + root + `},
+ "PR":{"columns":{"name":{"type":"string"}},"indexes":[["name"]]` + root + `},
  "N3":{"columns":{"name":{"type":"string"},"peer":{"type":{"key":` + ref("N3", "strong") + `,"min":0,"max":1}}}}
 }}`
 }
@@ -229,6 +229,12 @@ func srefAlphabet(level int) []dbx.Txn {
 		opUpdate("R", uR[0], rm.Row{"wmap": rm.MapOf(rm.S("k1"), rm.U(n1[1]), rm.S("k2"), rm.U(n1[1]))}), opUpdate("R", uR[0], rm.Row{"wmap": rm.MapOf(rm.S("k1"), rm.U(n1[0]), rm.S("k2"), rm.U(n1[1]))}), opUpdate("R", uR[0], rm.Row{"cnt": one(8)}))
 	add("R r1.wset a1 removed then added back + cnt:=8",
 		opMutate("R", uR[0], "wset", "delete", uset(n1[0])), opMutate("R", uR[0], "wset", "insert", uset(n1[0])), opUpdate("R", uR[0], rm.Row{"cnt": one(8)}))
+	// a row inserted and, in the same transaction, changed so that columns end at their default again
+	add("ins PR p1 name=tmp then name:=\"\"", opInsert("PR", uPR[0], rm.Row{"name": str("tmp")}), opUpdate("PR", uPR[0], rm.Row{"name": str("")}))
+	add("ins R 15 name,cnt,wset then back to defaults except imm",
+		opInsert("R", uu("1", 5), rm.Row{"name": str("tmp"), "cnt": one(5), "imm": str("kept"), "wset": uset(n1[0])}),
+		opUpdate("R", uu("1", 5), rm.Row{"name": str(""), "cnt": one(0)}),
+		opMutate("R", uu("1", 5), "wset", "delete", uset(n1[0])))
 	return a
 }
 
